@@ -1,17 +1,212 @@
-//! module `line` — streams `line.*` (not built yet).
+//! module `line` (serves C17, thin-line part; C07 translation of thin lines) — `Line::points()`.
+//!
+//! Streams (every result line is compared with the Lean model `EG.Model.Line`):
+//!   line.points x0 y0 x1 y1          -> the points in iteration order `x,y;x,y;...`; lines with more
+//!                                       than 64 points: `n=<count> first=<pt> last=<pt> h=<hash>`
+//!                                       (hash over all points in order, see `pts_digest`)
+//!   line.translate x0 y0 x1 y1 dx dy -> points of `line.translate((dx,dy))` (same format)
+//!
+//! Oracle (property C17, thin-line sentence, as predicates on the real results; Lean statements
+//! mirrored: `points_head`, `points_last`, `points_length`, `points_steps`,
+//! `points_within_half_pixel`, `points_zero_length`, `line_points_in_box`, `line_points_translate`):
+//!   * first point = start, last point = end                                  (C17:line-first/-last)
+//!   * number of points = max(|dx|, |dy|) + 1                                  (C17:line-length)
+//!   * consecutive points differ by exactly 1 along the major axis (the axis with the larger
+//!     |delta|; on a tie both axes move by 1) and by at most 1 along the minor (C17:line-step)
+//!   * every point p satisfies |2 (dx (p.y-y0) - dy (p.x-x0))| <= max(|dx|,|dy|), i.e. it is
+//!     within half a pixel of the ideal line measured along the minor axis; exact i64 arithmetic
+//!                                                                            (C17:line-halfpixel)
+//!   * every point lies coordinate-wise between start and end                 (C17:line-box)
+//!   * `translate(d).points()` = `points()` shifted by d                      (C07:line-translate)
 use crate::common::*;
+use embedded_graphics::{prelude::*, primitives::Line};
 
 pub struct M;
+
+/// Canonical text of a point list: the full list up to 64 points, a digest beyond.
+/// Digest: h_0 = 0, h_{i+1} = (h_i * 1000003 + (x + 2^31) * 65599 + (y + 2^31)) mod 2^64.
+pub fn pts_digest(pts: &[Point]) -> String {
+    if pts.len() <= 64 {
+        return fmt_pts(pts.iter().copied());
+    }
+    let mut h: u64 = 0;
+    for p in pts {
+        let ux = (p.x as i64 + (1i64 << 31)) as u64;
+        let uy = (p.y as i64 + (1i64 << 31)) as u64;
+        h = h.wrapping_mul(1_000_003).wrapping_add(ux.wrapping_mul(65_599)).wrapping_add(uy);
+    }
+    format!("n={} first={} last={} h={}", pts.len(), fmt_pt(pts[0]), fmt_pt(pts[pts.len() - 1]), h)
+}
+
+/// The thin-line oracle; also used by module `thick` (width 1) and `poly`.
+pub fn thin_line_oracle(ctx: &mut Ctx, s: Point, e: Point, pts: &[Point]) {
+    let (dx, dy) = ((e.x - s.x) as i64, (e.y - s.y) as i64);
+    let n = dx.abs().max(dy.abs());
+    ctx.expect(pts.first() == Some(&s), "C17:line-first", || format!("{:?}->{:?} first {:?}", s, e, pts.first()));
+    ctx.expect(pts.last() == Some(&e), "C17:line-last", || format!("{:?}->{:?} last {:?}", s, e, pts.last()));
+    ctx.expect(pts.len() as i64 == n + 1, "C17:line-length", || format!("{:?}->{:?} len {} want {}", s, e, pts.len(), n + 1));
+    let y_major = dy.abs() >= dx.abs();
+    let mut step_ok = true;
+    for w in pts.windows(2) {
+        let (sx, sy) = ((w[1].x - w[0].x) as i64, (w[1].y - w[0].y) as i64);
+        let (maj, min) = if y_major { (sy, sx) } else { (sx, sy) };
+        if maj.abs() != 1 || min.abs() > 1 {
+            step_ok = false;
+        }
+        // the major coordinate moves towards the end point
+        if maj != if y_major { dy.signum() } else { dx.signum() } {
+            step_ok = false;
+        }
+    }
+    ctx.expect(step_ok, "C17:line-step", || format!("{:?}->{:?} bad step", s, e));
+    let mut half_ok = true;
+    let mut box_ok = true;
+    for p in pts {
+        let cross = dx * (p.y - s.y) as i64 - dy * (p.x - s.x) as i64;
+        if (2 * cross).abs() > n {
+            half_ok = false;
+        }
+        if p.x < s.x.min(e.x) || p.x > s.x.max(e.x) || p.y < s.y.min(e.y) || p.y > s.y.max(e.y) {
+            box_ok = false;
+        }
+    }
+    ctx.expect(half_ok, "C17:line-halfpixel", || format!("{:?}->{:?} point off the ideal line by more than 1/2", s, e));
+    ctx.expect(box_ok, "C17:line-box", || format!("{:?}->{:?} point outside the box of the end points", s, e));
+}
+
+fn classify(ctx: &mut Ctx, s: Point, e: Point) {
+    let (dx, dy) = (e.x - s.x, e.y - s.y);
+    let key = if dx == 0 && dy == 0 {
+        "line:zero-length"
+    } else if dy == 0 {
+        "line:horizontal"
+    } else if dx == 0 {
+        "line:vertical"
+    } else if dx.abs() == dy.abs() {
+        "line:diagonal"
+    } else {
+        // octant number 0..7 counter-clockwise in screen coordinates from +x
+        match (dx > 0, dy > 0, dx.abs() > dy.abs()) {
+            (true, true, true) => "line:octant0",
+            (true, true, false) => "line:octant1",
+            (false, true, false) => "line:octant2",
+            (false, true, true) => "line:octant3",
+            (false, false, true) => "line:octant4",
+            (false, false, false) => "line:octant5",
+            (true, false, false) => "line:octant6",
+            (true, false, true) => "line:octant7",
+        }
+    };
+    ctx.count(key);
+    let n = dx.abs().max(dy.abs());
+    ctx.count(if n <= 9 { "line:len<=9" } else if n <= 64 { "line:len<=64" } else { "line:len>64" });
+}
+
+/// starting points over which the exhaustive end-point grids are repeated
+pub const STARTS: [(i32, i32); 3] = [(0, 0), (-7, 4), (1000, -513)];
 
 impl Module for M {
     fn name(&self) -> &'static str {
         "line"
     }
     fn rule(&self) -> &'static str {
-        "not built yet"
+        "all lines start -> start + (dx,dy) with (dx,dy) in [-R,R]^2 (R = 9 quick, 20 thorough: all octants, \
+         horizontal, vertical, diagonal, zero length) from 3 start points (origin, negative, far), then seeded random \
+         lines with |coordinates| up to 30000; non-trivial = start != end; distinct = distinct op text"
     }
-    fn generate(&self, _pid: &str, _tier: Tier, _rng: &mut Rng, _emit: &mut dyn FnMut(String)) {}
-    fn execute(&self, op: &str, _ctx: &mut Ctx) -> String {
-        panic!("unknown op {}", op)
+
+    fn generate(&self, pid: &str, tier: Tier, rng: &mut Rng, emit: &mut dyn FnMut(String)) {
+        let r: i32 = if tier == Tier::Quick { 9 } else { 20 };
+        if pid == "C07" {
+            // translation of thin lines
+            let r = if tier == Tier::Quick { 5 } else { 9 };
+            for dx in -r..=r {
+                for dy in -r..=r {
+                    for (tx, ty) in [(0, 0), (3, -2), (-11, -17), (250, 1)] {
+                        emit(format!("line.translate -2 3 {} {} {} {}", -2 + dx, 3 + dy, tx, ty));
+                    }
+                }
+            }
+            let n = if tier == Tier::Quick { 500 } else { 20_000 };
+            for _ in 0..n {
+                let sc = *rng.pick(&[30i64, 300, 3000]);
+                emit(format!(
+                    "line.translate {} {} {} {} {} {}",
+                    rng.range(-sc, sc),
+                    rng.range(-sc, sc),
+                    rng.range(-sc, sc),
+                    rng.range(-sc, sc),
+                    rng.range(-sc, sc),
+                    rng.range(-sc, sc)
+                ));
+            }
+            return;
+        }
+        for (sx, sy) in STARTS {
+            for dx in -r..=r {
+                for dy in -r..=r {
+                    emit(format!("line.points {} {} {} {}", sx, sy, sx + dx, sy + dy));
+                }
+            }
+        }
+        // random long lines
+        let n = if tier == Tier::Quick { 1500 } else { 100_000 };
+        for _ in 0..n {
+            let sc = *rng.pick(&[40i64, 40, 40, 300, 300, 300, 300, 2000, 2000, 2000, 2000, 30000]);
+            let (x0, y0) = (rng.range(-sc, sc), rng.range(-sc, sc));
+            // now and then an exactly axis-parallel / diagonal / nearly diagonal long line
+            let (x1, y1) = match rng.below(12) {
+                0 => (rng.range(-sc, sc), y0),
+                1 => (x0, rng.range(-sc, sc)),
+                2 => {
+                    let d = rng.range(-sc, sc);
+                    (x0 + d, y0 + if rng.chance(1, 2) { d } else { -d })
+                }
+                3 => {
+                    let d = rng.range(-sc, sc);
+                    (x0 + d, y0 + d + rng.range(-1, 1))
+                }
+                _ => (rng.range(-sc, sc), rng.range(-sc, sc)),
+            };
+            emit(format!("line.points {} {} {} {}", x0, y0, x1, y1));
+        }
+    }
+
+    fn execute(&self, op: &str, ctx: &mut Ctx) -> String {
+        let mut t = Toks::new(op);
+        match t.str() {
+            "line.points" => {
+                let s = t.point();
+                let e = t.point();
+                let line = Line::new(s, e);
+                let pts: Vec<Point> = line.points().collect();
+                classify(ctx, s, e);
+                if s != e {
+                    ctx.nontrivial(op);
+                }
+                thin_line_oracle(ctx, s, e, &pts);
+                pts_digest(&pts)
+            }
+            "line.translate" => {
+                let s = t.point();
+                let e = t.point();
+                let d = t.point();
+                let line = Line::new(s, e);
+                let base: Vec<Point> = line.points().collect();
+                let moved: Vec<Point> = line.translate(d).points().collect();
+                let mut l2 = line;
+                l2.translate_mut(d);
+                let moved2: Vec<Point> = l2.points().collect();
+                ctx.count("line:translate");
+                if s != e && d != Point::zero() {
+                    ctx.nontrivial(op);
+                }
+                let shifted: Vec<Point> = base.iter().map(|p| *p + d).collect();
+                ctx.expect(moved == shifted, "C07:line-translate", || format!("{:?}->{:?} by {:?}", s, e, d));
+                ctx.expect(moved2 == shifted, "C07:line-translate-mut", || format!("{:?}->{:?} by {:?}", s, e, d));
+                pts_digest(&moved)
+            }
+            _ => panic!("unknown op {}", op),
+        }
     }
 }
